@@ -196,6 +196,9 @@ def loop_state_vars(body, lm, types=("usize", "f64", "bool")):
             if st["k"] != "assign":
                 continue
             nm = body.place_name(st["place"])
+            if nm is None and st["place"]["p"] and st["place"]["l"] in body.local_names \
+                    and all(isinstance(e, dict) and "f" in e for e in st["place"]["p"]):
+                nm = body.local_names[st["place"]["l"]] + "." + ".".join(e.get("name", str(e["f"])) for e in st["place"]["p"])
             if nm is None:
                 continue
             ty = st["place"]["ty"]
@@ -225,6 +228,8 @@ def contradictory(facts):
     """Syntactically infeasible path condition: x < x, x != x, or an atom with both polarities."""
     seen = {}
     for atom, pol in facts:
+        if atom[0] == "false":
+            return True
         if atom[0] == "cmp":
             op, a, b = atom[1], atom[2], atom[3]
             if a == b:
